@@ -22,6 +22,16 @@ REPO = os.environ.get('QXV_REPO_BASE', '/repo')
 
 def scratch_copy():
     d = tempfile.mkdtemp(prefix='qxv-mut-', dir='/tmp')
+    if os.environ.get('QXV_MUTATE_FROM_HEAD'):
+        # committed state of /repo (independent of a seeded patch that tool/seeded.py may have applied to the working tree right now)
+        p1 = subprocess.Popen(['git', '-C', REPO, 'archive', 'HEAD', 'src', 'cmake', 'CMakeLists.txt', 'QXmppConfig.cmake.in', 'qxmpp.pc.in', 'qxmpp_legacy.pc.in'],
+                              stdout=subprocess.PIPE)
+        subprocess.run(['tar', '-x', '-C', d], stdin=p1.stdout, check=True)
+        p1.wait()
+        for item in ('tests', 'doc', 'examples'):
+            os.makedirs(os.path.join(d, item), exist_ok=True)
+            open(os.path.join(d, item, 'CMakeLists.txt'), 'w').close()
+        return d
     for item in ('src', 'cmake', 'CMakeLists.txt', 'QXmppConfig.cmake.in', 'qxmpp.pc.in', 'qxmpp_legacy.pc.in', 'examples', 'tests', 'doc'):
         s = os.path.join(REPO, item)
         if os.path.isdir(s):
